@@ -41,7 +41,8 @@ inductive Loc
   | tryLock     -- in the try body: chdir, …; next: blocking acquire of the run lock
   | locked      -- next: test whether the success marker exists
   | rmFailed    -- next: `rmfile(failed)`
-  | setStarted  -- next: `started := True` and call the body
+  | setStarted  -- next: `started := True`
+  | callBody    -- `run(params.json)`: load the configuration; next: enter the task body (`task.execute()`)
   | body (k : Nat)  -- inside the task body, `k` internal points passed
   | bodyDone    -- body returned; next: restore the SIGTERM disposition
   | restTerm    -- next: restore the SIGINT disposition
@@ -55,12 +56,12 @@ inductive Loc
   deriving DecidableEq, Repr
 
 def Loc.inTry : Loc → Bool
-  | .tryLock | .locked | .rmFailed | .setStarted | .body _ | .bodyDone | .restTerm | .restInt | .sysExit | .skipped => true
+  | .tryLock | .locked | .rmFailed | .setStarted | .callBody | .body _ | .bodyDone | .restTerm | .restInt | .sysExit | .skipped => true
   | _ => false
 
 /-- the locations between the done test and the success marker (the lock is held there) -/
 def Loc.critical : Loc → Bool
-  | .rmFailed | .setStarted | .body _ | .bodyDone | .restTerm | .restInt | .sysExit | .touch => true
+  | .rmFailed | .setStarted | .callBody | .body _ | .bodyDone | .restTerm | .restInt | .sysExit | .touch => true
   | _ => false
 
 inductive Holder | run (i : Nat) | launch (l : Nat)
@@ -136,7 +137,8 @@ def mainStep (cfg : Cfg) (me : Nat) (sh : Shared) (p : Proc) : Shared × Proc :=
       else (sh, p)   -- blocked
   | .locked => (sh, { p with loc := if sh.done then .skipped else .rmFailed })
   | .rmFailed => ({ sh with failed := none }, { p with loc := .setStarted })
-  | .setStarted => ({ sh with starts := sh.starts + 1 }, { p with loc := .body 0, started := true })
+  | .setStarted => (sh, { p with loc := .callBody, started := true })
+  | .callBody => ({ sh with starts := sh.starts + 1 }, { p with loc := .body 0 })
   | .body k =>
       if k < p.blen then (sh, { p with loc := .body (k + 1) })
       else match p.outcome with
